@@ -521,6 +521,7 @@ def run(tier):
     rule_R10(res, prog)
     rule_R11(res, prog)
     rule_R12(res, prog)
+    rule_R13(res, prog)
     return res.finish()
 
 
@@ -938,4 +939,46 @@ def rule_R12(res, prog):
                          "offer` %s" % (fn.relfile, t["ln"], "is not recognised" if fail_k is None else "reaches the non-error return at line %s" % bad),
                          file=fn.relfile, line=t["ln"])
         res.instance(rid, "parseServerKeyExchange:%s `curve not offered` leaves with an error" % t["ln"], bad is None, finding=f2)
+    res.floor(rid, 2)
+
+
+def rule_R13(res, prog):
+    """'the key-exchange mode in force was offered by the client': RFC 8446 4.2.9 defines psk_ke(0) and psk_dhe_ke(1); servers
+    ignore unknown values.  In tls13ParsePskKeyExchangeModes every branch on the octet read from the extension is an equality
+    test with one of the two code points, and the mode recorded in an arm is the one its test names."""
+    import re
+    from sa import cfgutil as cu
+    rid = "C07.R13"
+    res.rule(rid, "psk_key_exchange_modes: a mode is recorded only under an equality test of the wire octet with its RFC 8446 code point")
+    fn = prog.by_name.get("tls13ParsePskKeyExchangeModes")
+    if not fn:
+        if prog.defined("USE_TLS_1_3"):
+            raise AnalysisBroken("C07.R13: tls13ParsePskKeyExchangeModes vanished")
+        res.floor(rid, 0)
+        return
+    fn = fn[0]
+    WIRE = {prog.enums.get("psk_keyex_mode_psk_ke"): 0, prog.enums.get("psk_keyex_mode_psk_dhe_ke"): 1}
+    gf = cu.guard_facts(fn)
+    n = 0
+    for b in fn.blocks:
+        for i, ln, x in cu.block_exprs(b):
+            for m in walk(x):
+                if m.get("k") == "bin" and m["op"] == "=" and (strip(m["l"]) or {}).get("k") == "var" and strip(m["l"]).get("n") == "mode":
+                    r = strip(m["r"])
+                    while r is not None and r.get("k") == "cast":
+                        r = strip(r["e"])
+                    if r is None or r.get("k") != "int" or r["v"] not in WIRE:
+                        continue
+                    n += 1
+                    want = "(modeVal == %d)" % WIRE[r["v"]]
+                    facts = gf.get(b["id"], ())
+                    ok = (want, True) in facts or (WIRE[r["v"]] == 0 and ("modeVal", False) in facts)       # `x == 0` is the atom (x, false)
+                    f_ = None
+                    if not ok:
+                        f_ = Finding(PROP, rid, fn.name, "PSK key-exchange mode recorded without the exact code-point test",
+                                     "%s:%s tls13ParsePskKeyExchangeModes(): mode %d is recorded as offered without the branch fact %s "
+                                     "(facts on modeVal here: %s): an unknown / GREASE value in the client's list is taken for this mode and the "
+                                     "server selects a key-exchange mode the client never offered" % (
+                                         fn.relfile, ln, r["v"], want, [f for f in facts if "modeVal" in f[0]]), file=fn.relfile, line=ln)
+                    res.instance(rid, "tls13ParsePskKeyExchangeModes:%s mode %d under %s" % (ln, r["v"], want), ok, finding=f_)
     res.floor(rid, 2)
